@@ -137,7 +137,108 @@ def _job(args):
         return {"ok": -1, "error": f"{type(ex).__name__}: {ex}\n{traceback.format_exc()[-1500:]}"}
 
 
-def run_jobs(jobs, workers=12, job_timeout=150):
+def _wigner_d_small(j2, m2, mp2, theta):
+    """d^j_{m,m'}(theta) by Wigner's explicit sum, doubled arguments (independent of sympy)."""
+    from math import factorial
+
+    def f(x2):
+        return factorial(x2 // 2)
+
+    if abs(m2) > j2 or abs(mp2) > j2:
+        return 0.0 * theta
+    tot = 0.0
+    for s_ in range(0, j2 + 1):
+        a2, c2, d2 = j2 + mp2 - 2 * s_, m2 - mp2 + 2 * s_, j2 - m2 - 2 * s_
+        if a2 < 0 or c2 < 0 or d2 < 0:
+            continue
+        sign = -1 if ((m2 - mp2) // 2 + s_) % 2 else 1
+        tot = tot + sign * np.cos(theta / 2) ** ((2 * j2 + mp2 - m2 - 4 * s_) // 2) * np.sin(theta / 2) ** ((m2 - mp2 + 4 * s_) // 2) / (f(a2) * factorial(s_) * f(c2) * f(d2))
+    return np.sqrt(f(j2 + m2) * f(j2 - m2) * f(j2 + mp2) * f(j2 - mp2)) * tot
+
+
+def _dpd_job(args):
+    """Worker: the DPD-aligned model's intensity against the Dalitz-plot-decomposition formula assembled independently from the model's
+    own per-topology amplitudes A^k[lambda'], the zeta angles zeta^i_{k(ref)} (formulate_zeta_angle, whose geometry C19 checks) evaluated
+    from the event masses, and an independent Wigner small-d:
+        A[l0..l3] = sum_k sum_l'  A^k[l']  d^{j0}_{l0,l0'}(zeta^0_{k(ref)})  prod_i d^{ji}_{li',li}(zeta^i_{k(ref)}),   I = sum_l |A[l]|^2 ."""
+    spec, ref, events, seed = args
+    logging.disable(logging.CRITICAL)
+    import itertools
+
+    try:
+        from ampform.kinematics.angles import formulate_zeta_angle
+        from ampform.sympy import PoolSum
+
+        reaction0 = load(spec)
+        reaction, off, b = configure_alignment(reaction0, f"dpd{ref}")
+        model = b.formulate()
+        ev = numeric.ModelEvaluator(model, coupling_values(model, seed))
+        P = {i + off: np.asarray(p) for i, p in events.items()}
+        n = len(next(iter(P.values())))
+        I_model = ev(P)
+        kv = ev.kinematics(P)
+        amp = {}
+        with np.errstate(all="ignore"):
+            for a, (fs, f) in ev.amps.items():
+                amp[(str(a.base), tuple(int(2 * sp.Rational(x)) for x in a.indices))] = np.broadcast_to(np.asarray(f(*[kv[s_] for s_ in fs]), dtype=complex), (n,))
+
+        def M(*ids):
+            q = sum(P[i] for i in ids)
+            return np.sqrt(np.maximum(q[:, 0] ** 2 - (q[:, 1:] ** 2).sum(1), 0))
+
+        mass = {"m_0": M(1, 2, 3), "m_1": M(1), "m_2": M(2), "m_3": M(3), "m_12": M(1, 2), "m_13": M(1, 3), "m_23": M(2, 3)}
+        outer = outer_states(reaction)
+        j2 = [o["spin2"] for o in outer]
+        # pools: outer indices of the intensity, inner (primed) indices of the aligned amplitude
+        top = model.intensity
+        outer_pools = {str(i): [int(2 * sp.Rational(v)) for v in vals] for i, vals in top.indices}
+        inner = next(x for x in sp.preorder_traversal(top.expression) if isinstance(x, PoolSum))
+        inner_pools = {str(i): [int(2 * sp.Rational(v)) for v in vals] for i, vals in inner.indices}
+        bases = sorted({k[0] for k in amp})
+        zeta = {}
+        for base in bases:
+            sub = {int(c) for c in re.sub(r"[^0-9]", "", base)}
+            (k,) = {1, 2, 3} - sub
+            for i in range(4):
+                _, expr = formulate_zeta_angle(i, k, ref)
+                e = expr.doit()
+                syms = sorted(e.free_symbols, key=str)
+                fz = sp.lambdify(syms, e, "numpy")
+                with np.errstate(all="ignore"):
+                    zeta[(base, i)] = np.broadcast_to(np.asarray(fz(*[mass[str(s_)] for s_ in syms]), dtype=float), (n,))
+        lam_out = [outer_pools.get(f"m{i}", [0]) if j2[i] else [0] for i in range(4)]
+        lam_in = [inner_pools.get("\\lambda_%d^" % i, [0]) for i in range(4)]
+        I_indep = np.zeros(n)
+        for lo in itertools.product(*lam_out):
+            A = np.zeros(n, dtype=complex)
+            for base in bases:
+                for li in itertools.product(*lam_in):
+                    a = amp.get((base, tuple(li)))
+                    if a is None:
+                        continue
+                    term = a
+                    if j2[0]:
+                        term = term * _wigner_d_small(j2[0], lo[0], li[0], zeta[(base, 0)])
+                    elif lo[0] != li[0]:
+                        continue
+                    skip = False
+                    for i in (1, 2, 3):
+                        if j2[i]:
+                            term = term * _wigner_d_small(j2[i], li[i], lo[i], zeta[(base, i)])
+                        elif lo[i] != li[i]:
+                            skip = True
+                    if not skip:
+                        A = A + term
+            I_indep = I_indep + np.abs(A) ** 2
+        return {"ok": 1, "error": "", "I": np.asarray(I_model).tolist(), "I_formula": I_indep.tolist(), "topologies": len(bases),
+                "outer_pools": outer_pools, "inner_pools": inner_pools}
+    except Exception as ex:  # noqa: BLE001
+        import traceback
+
+        return {"ok": -1, "error": f"{type(ex).__name__}: {ex}\n{traceback.format_exc()[-1500:]}"}
+
+
+def run_jobs(jobs, workers=12, job_timeout=150, fn=None):
     """Run _job for every entry in forked workers, at most `workers` at a time; a job that exceeds
     job_timeout seconds is killed and reported as {"ok": -2} (too expensive, not a verdict)."""
     import json
@@ -157,7 +258,7 @@ def run_jobs(jobs, workers=12, job_timeout=150):
             if pid == 0:
                 try:
                     os.close(r)
-                    out = _job(jobs[i])
+                    out = (fn or _job)(jobs[i])
                     with os.fdopen(w, "w") as f:
                         json.dump(out, f)
                 finally:
